@@ -3,13 +3,13 @@ From Coq Require Extraction.
 From Coq Require Import ExtrOcamlBasic.
 From Coq Require Import List ZArith NArith.
 From Coq.Strings Require Import Byte.
-From Muduo Require Import Base_Bytes Gen_C20 Gen_C20Net Gen_C20Tz Gen_C20Ts C20_Model C20_TzGen C20_TsGen C20_NetModel C20_TzifModel.
+From Muduo Require Import Base_Bytes Gen_C20 Gen_C20Net Gen_C20Tz Gen_C20Ts C20_Model C20_TzGen C20_TsGen C20_NetModel C20_Ip6Model C20_TzifModel Gen_C20Tzif.
 Extraction "model.ml" Gen_C20.getYearMonthDay Gen_C20.getJulianDayNumber Gen_C20.weekDay
   C20_Model.break_utc C20_Model.fromUtc C20_TzGen.toLocalTime_g C20_TzGen.fromLocalTime_g
   C20_Model.wf C20_Model.sorted_utc C20_TsGen.ts_toString_g C20_TsGen.ts_toFormatted_g C20_TsGen.date_toIsoString_g
   Gen_C20Ts.Timestamp_secondsSinceEpoch Gen_C20Ts.Timestamp_fromUnixTime Gen_C20Ts.Timestamp_addTime Gen_C20Ts.Timestamp_timeDifference_diff
   C20_NetModel.inet_make C20_NetModel.inet_port_only C20_NetModel.inet_toIp C20_NetModel.inet_toIpPort C20_NetModel.inet_port C20_NetModel.set_scope_id
   C20_NetModel.pton4 C20_NetModel.ntop4 C20_NetModel.be_op C20_NetModel.AF_INET6
-  C20_TzifModel.tzif_parse
+  Gen_C20Tzif.tzif_parse_g C20_Ip6Model.ntop6 C20_Ip6Model.pton6
   Base_Bytes.to_signed
   Base_Bytes.xbyte_of_N Base_Bytes.xN_of_byte.
